@@ -69,6 +69,7 @@ def behaviour_of(segment):
             a["task"] = ev.get("task")
         acts.append(a)
     beh = {"top": top or ["p1", "p2", "a1"], "actions": acts,
+           "slots": segment[0].get("slots", []),
            "id": segment[0].get("behaviour", 0),
            "agg": segment[0].get("agg", 100),
            "deagg": segment[0].get("deagg", 90),
@@ -146,9 +147,59 @@ def model_runs(chk, tier, cfgs=None, needed=None):
         raise vlib.ToolError(f"actions never taken in the model: {missing}")
 
 
-def generate(chk, themes, num, depth, seed):
+def _a(a, **kw):
+    d = {"a": a}
+    d.update(kw)
+    return d
+
+
+# Directed behaviours for a CA with two parents (theme "multi": slot C2 is
+# the resource class of CA C under its second parent A, besides the one
+# under B).  Both parents hold p1: the route authorisation has an object in
+# both classes; removing one parent withdraws that class only, removing both
+# withdraws everything, a removed parent can be added again; entitlement
+# changes reach the CA per parent; a roll covers every class, also when a
+# parent is removed in the middle of it.
+MULTI_SLOTS = [["C2", "C"]]
+MULTI_DIRECTED = [
+    {"slots": MULTI_SLOTS, "theme": "multi-directed", "actions": [
+        _a("AddCa", c="B", p="A", res=["p1", "p2", "a1"]), _a("Settle"),
+        _a("AddCa", c="C", p="B", res=["p1"]), _a("Settle"),
+        _a("AddParent", c="C2", p="A", res=["p1", "p2"]), _a("Settle"),
+        # (one update at a time: each must reach both classes)
+        _a("RoaAdd", c="C", r=["p1", "a1"]), _a("Settle"),
+        _a("RoaAdd", c="C", r=["p2", "a1"]), _a("Settle"),
+        _a("RoaDel", c="C", r=["p1", "a1"]), _a("Settle"),
+        _a("RoaAdd", c="C", r=["p1", "a2"]), _a("Settle"),
+        _a("ChildRes", c="C2", p="A", res=["p2"]), _a("Settle"),
+        _a("ChildRes", c="C2", p="A", res=["p1", "p2"]), _a("Settle"),
+        _a("RemoveParent", c="C", p="B"), _a("Settle"),
+        _a("RemoveParent", c="C2", p="A"), _a("Settle"),
+        _a("AddParent", c="C", p="B", res=["p1"]), _a("Settle"),
+        _a("RoaDel", c="C", r=["p2", "a1"]),
+        _a("AddParent", c="C2", p="A", res=["p1", "p2"]), _a("Settle")]},
+    {"slots": MULTI_SLOTS, "theme": "multi-directed", "actions": [
+        _a("AddCa", c="B", p="A", res=["p1", "p2", "a1"]), _a("Settle"),
+        _a("AddCa", c="C", p="B", res=["p1", "a1"]), _a("Settle"),
+        _a("AddParent", c="C2", p="A", res=["p2"]), _a("Settle"),
+        _a("RoaAdd", c="C", r=["p1", "a1"]),
+        _a("RoaAdd", c="C", r=["p2", "a2"]), _a("Settle"),
+        _a("RollInit", c="C"), _a("Settle"),
+        _a("RollActivate", c="C"),
+        _a("Step", task="sync_repo_C"), _a("Step", task="sync_repo_B"),
+        _a("Step", task="sync_repo_A"), _a("Settle"),
+        _a("RollInit", c="C"), _a("Settle"),
+        _a("RemoveParent", c="C2", p="A"),
+        _a("RollActivate", c="C"), _a("Settle"),
+        _a("AddParent", c="C2", p="A", res=["p2"]), _a("Settle"),
+        _a("RoaDel", c="C", r=["p1", "a1"]), _a("Settle")]},
+]
+
+
+def generate(chk, themes, num, depth, seed, theme_nums=None):
     behaviours = []
     for i, theme in enumerate(themes):
+        num_here = (theme_nums or {}).get(theme, num)
         # "tduring": operations while everything is due (a restart with due
         # timing values at a random point of a "life" behaviour, tasks pumped
         # and normal values restored at a later point; restarts are no-ops
@@ -160,7 +211,7 @@ def generate(chk, themes, num, depth, seed):
         # the margin re-issue, all their sets together
         src = {"tduring": "life", "tstag": "roll"}.get(theme, theme)
         got = vlib.generate_behaviours(
-            "MC_Krill_gen", f"MC_Krill_gen_{src}.cfg", chk.out, num=num,
+            "MC_Krill_gen", f"MC_Krill_gen_{src}.cfg", chk.out, num=num_here,
             depth=150, seed=seed * 31 + i, drop_last=False, timeout=900)
         for b in got:
             # the generator prints at a fixed history length; every
@@ -235,10 +286,16 @@ def scan_known(chk, trace):
     """States the specification tolerates only because of a recorded
     finding are reported as that finding."""
     for seg in vlib.split_behaviours(trace):
+        # (slots of CAs with several parents belong to their CA)
+        ca_of = {s: c for s, c in (seg[0].get("slots") or [])}
         for ev in seg:
             if ev.get("ev") != "Settled":
                 continue
             a = ev.get("abs", {})
+            if ca_of:
+                a = dict(a)
+                a["exists"] = {c: a["exists"].get(ca_of.get(c, c), False)
+                               for c in a.get("exists", {})}
             # a CA with an open certificate request whose parent has nothing
             # to offer: the request stays for ever
             for c, reqs in a.get("req", {}).items():
@@ -361,12 +418,16 @@ def self_test(chk, trace):
 
 def run_property(pid, level, tier, seed, themes, quick_num, thorough_num,
                  assumptions, rule, mc_cfgs=None, needed_events=None,
-                 directed=None):
+                 directed=None, theme_nums=None):
+    """theme_nums: {theme: (quick, thorough)} for themes whose number of
+    behaviours differs from quick_num / thorough_num."""
     chk = vlib.Check(pid, level, tier, seed)
     chk.assumptions = assumptions
     model_runs(chk, tier, cfgs=mc_cfgs)
     num = quick_num if tier == "quick" else thorough_num
-    behaviours = generate(chk, themes, num, 30, seed)
+    nums = {t: (q if tier == "quick" else th)
+            for t, (q, th) in (theme_nums or {}).items()}
+    behaviours = generate(chk, themes, num, 30, seed, theme_nums=nums)
     # hand-written behaviours aimed at particular situations
     for d in directed or []:
         b = copy.deepcopy(d)
@@ -399,8 +460,10 @@ def replay(pid, level, path, seed):
 
 
 COMMON_ASSUMPTIONS = [
-    "hierarchy TA <- A <- {B, C, D} with one parent per CA and A's holdings "
-    "fixed; resources are unions of a few atoms",
+    "hierarchy TA <- A <- {B, C, D}, A's holdings fixed; one parent per CA "
+    "except in theme multi, where C is a child of B and of A (one resource "
+    "class per parent; a CA with two classes has no children); resources are "
+    "unions of a few atoms",
     "object identity is abstracted to payloads in Krill.tla; serial-number "
     "level facts (revocation, numbers) are checked on the recorded traces",
     "the relying-party walk uses the rpki crate's validation routines "
